@@ -472,6 +472,9 @@ def gen_case_c10(seed, tier):
     n = rng.rng(2, 4)
     for i in range(n):
         pe = [v for v in ["PV_A", "PV_B"] if rng.chance(0.5)]
+        # a target may also list, as a hashed variable of its own, one that the configuration passes
+        # (hashed or unhashed) to everything
+        pe += [v for v in ["UV_A", "CV_A", "PATH_X"] if rng.chance(0.2)]
         t = {"name": "t%d" % i, "kind": "genrule", "srcs": ["f:s.txt"] + (["t://e:t%d" % (i - 1)] if i > 0 and rng.chance(0.4) else []), "deps": [], "outs": ["t%d.out" % i],
              "salt": "s%d" % i, "dir": None, "binary": False, "env": {}, "pass_env": pe, "labels": [], "envdump": True}
         spec["pkgs"]["e"]["targets"].append(t)
@@ -651,10 +654,15 @@ def gen_case_c11(seed, tier):
     cur = rs.clone(spec)
     for j in range(rng.rng(2, 6)):
         r = rng.intn(100)
-        if r < 20:
+        if r < 14:
             steps.append({"kind": "repeat", "desc": "no change", "state": len(states) - 1})
             continue
-        if r < 28:
+        if r < 26:
+            ts = [t for t in cur["pkgs"]["t"]["targets"] if t["kind"] == "gentest"]
+            t = rng.choice(ts)
+            steps.append({"kind": "args", "desc": "plz test //t:%s -- skip (a run with test arguments that passes whatever the data says)" % t["name"], "state": len(states) - 1, "target": "//t:" + t["name"]})
+            continue
+        if r < 32:
             steps.append({"kind": "rm-plz-out", "desc": "rm -rf plz-out", "state": len(states) - 1})
             continue
         if r < 36 and len(states) > 1:
@@ -687,7 +695,7 @@ def c11_render(spec, log):
     for t in s["pkgs"]["t"]["targets"]:
         lab = "//t:" + t["name"]
         if t["kind"] == "gentest":
-            t["test_cmd"] = 'echo "TS %s" >> %s; : %s; test "`cat $DATA`" = pass' % (lab, log, t["salt"])
+            t["test_cmd"] = 'run() { echo "TS %s ${1-}" >> %s; : %s; if [ "${1-}" = skip ]; then exit 0; fi; test "`cat $DATA`" = pass; }; run' % (lab, log, t["salt"])
         else:
             t["cmd"] = 'echo "S %s" >> %s; cat $SRCS > $OUT; echo "E %s ok" >> %s' % (lab, log, lab, log)
     return s
@@ -734,8 +742,15 @@ def exec_case_c11(bindir, case):
                 shutil.rmtree(os.path.join(w.repo, "plz-out"), ignore_errors=True)
             w.write(c11_render(spec, w.log))
             exp, dig = c11_expect(spec)
-            res, log = w.plz(args, subseed(case["seed"], "inv%d" % i))
             when = "step %d (%s)" % (i, st["desc"])
+            if st["kind"] == "args":
+                # a run with test arguments: it passes, and it is NOT a passing run of the plain test
+                ares, alog = w.plz(["test", st["target"]] + hl.BASE_ARGS + ["--", "skip"], subseed(case["seed"], "args%d" % i))
+                w.stats["runs_with_test_args"] = w.stats.get("runs_with_test_args", 0) + 1
+                if ares.exit != 0:
+                    out.append(("args-run-failed", "%s: exited %d: %s" % (when, ares.exit, ares.stderr[-300:]), i))
+                    break
+            res, log = w.plz(args, subseed(case["seed"], "inv%d" % i))
             if res.exit == simlib.EXIT_HANG:
                 out.append(("hang", "%s: plz test did not terminate" % when, i))
                 break
@@ -848,11 +863,11 @@ def learn_hashes(w, shape, content, seed):
 
 def gen_case_c35(seed, tier):
     rng = Rng(seed)
-    shape = rng.choice(["file", "file", "multi", "dir"])
+    shape = rng.choice(["file", "file", "file", "multi", "dir"])
     content = "payload-%d" % rng.intn(100000)
     return {"seed": seed, "shape": shape, "content": content, "decl_kind": rng.choice(["correct-sha1", "correct-sha256", "prefixed", "prefixed-space", "near-miss", "wrong-length", "other-output", "two-one-correct", "uppercase"]),
-            "scenario": rng.choice(["build", "build", "cache-corrupt", "cache-stale-decl", "rebuild-after-fail"]), "compress": rng.chance(0.5), "binary": rng.chance(0.2),
-            "corrupt": rng.choice(["flip", "truncate", "swap"])}
+            "scenario": rng.choice(["build", "build", "cache-corrupt", "cache-corrupt", "cache-corrupt", "cache-corrupt-ab", "cache-corrupt-ab", "cache-stale-decl", "rebuild-after-fail"]), "compress": rng.chance(0.5), "binary": rng.chance(0.2),
+            "corrupt": rng.choice(["flip", "truncate", "swap", "inplace", "inplace"])}
 
 
 def declared_for(kind, true, rng):
@@ -951,6 +966,44 @@ def exec_case_c35(bindir, case):
                 res3, _ = w.plz(args, subseed(case["seed"], "after-corrupt-2"))
                 if res3.exit == 0 and not outputs_ok():
                     out.append(("rejected-artifact-trusted-later", "a corrupted cache entry was rejected once, but the following build succeeded with outputs that do not hash to a declared value", None))
+        elif sc == "cache-corrupt-ab" and case["shape"] == "file":
+            # the output follows an input; both contents are declared. A is built and stored, B is built
+            # and stored, the stored artifacts are replaced, the input goes back to A with B's (valid)
+            # output still in plz-out: the restored artifact must not pass on the strength of B's hash
+            ca, cb = case["content"], case["content"] + "-B"
+            decl = [_hex("sha256", ca.encode()), _hex("sha256", cb.encode())]
+
+            def ab_spec(val):
+                t3 = {"name": "h", "kind": "genrule", "srcs": ["f:in.txt"], "outs": ["h.out"], "salt": "x", "hashes": decl, "binary": case["binary"]}
+                sp = rs.new_spec()
+                sp["config"]["cache"] = cache
+                sp["config"]["dircompress"] = case["compress"]
+                sp["config"]["hash"] = "sha256"
+                t3["cmd"] = 'echo "S //h:h" >> %s; printf "%%s" "`cat $SRCS`" > "$OUT"; echo "E //h:h ok" >> %s' % (w.log, w.log)
+                sp["pkgs"]["h"] = {"files": {"in.txt": val}, "targets": [t3], "use_defs": False}
+                return sp
+            shutil.rmtree(os.path.join(w.repo, "plz-out"), ignore_errors=True)
+            shutil.rmtree(w.sc.path("cache"), ignore_errors=True)
+            w.prev_files = None
+            w.write(ab_spec(ca))
+            r1, _ = w.plz(args, subseed(case["seed"], "ab1"))
+            w.write(ab_spec(cb))
+            r2, _ = w.plz(args, subseed(case["seed"], "ab2"))
+            if r1.exit != 0 or r2.exit != 0:
+                out.append(("correct-hash-rejected", "A/B scenario: builds with correctly declared hashes failed (%d, %d): %s" % (r1.exit, r2.exit, (r1.stderr + r2.stderr)[-400:]), None))
+                return out, w.stats, w.sigs
+            n = corrupt_cache(w.sc.path("cache"), "swap", rng)
+            w.stats["cache_entries_corrupted"] = w.stats.get("cache_entries_corrupted", 0) + n
+            w.write(ab_spec(ca))
+            r3, _ = w.plz(args, subseed(case["seed"], "ab3"))
+            p = os.path.join(w.repo, base, "h.out")
+            good = os.path.exists(p) and open(p, "rb").read() == ca.encode()
+            if r3.exit == 0 and not good:
+                out.append(("corrupt-artifact-accepted", "A built and stored, B built and stored, stored artifacts replaced, input back to A with B's output still in plz-out: the build succeeded with an output that hashes to neither declared value", None))
+            elif r3.exit == 0:
+                r4, _ = w.plz(args, subseed(case["seed"], "ab4"))
+                if r4.exit != 0:
+                    out.append(("verified-then-rejected", "A/B scenario: success followed by failure on an unchanged tree", None))
         elif sc == "cache-stale-decl":
             # change the declaration to a wrong value; the stored artifact must not satisfy it
             t2 = c35_target(case["shape"], case["content"], [_hex("sha1", b"a different expectation")], case["binary"])
@@ -979,6 +1032,15 @@ def corrupt_cache(cdir, how, rng):
                 continue
             data = open(p, "rb").read()
             if not data:
+                continue
+            if how == "inplace":
+                # same inode (and so the same xattrs, hash record included), different bytes
+                i = len(data) // 2
+                os.chmod(p, 0o644)
+                with open(p, "r+b") as fh:
+                    fh.seek(i)
+                    fh.write(bytes([data[i] ^ 0x41]))
+                n += 1
                 continue
             if how == "flip":
                 i = len(data) // 2
